@@ -411,6 +411,18 @@ func (sc *SpecCtx) fieldOf(base Term, name string) Term {
 		return Term{S: sApp(base.Sort.sel(name), base.S), Sort: f.Sort, T: f.Type}
 	}
 	n, st, isPtr := derefNamedStruct(base.T)
+	if n != nil && !isPtr && base.Sort.Kind == KV {
+		// field of an opaque dependency struct VALUE (cast(link, cidlink.Link).Cid): the same uninterpreted function of
+		// the value that the executor uses for x.f (exec_expr.go selectPath)
+		for i := 0; i < st.NumFields(); i++ {
+			if f := st.Field(i); f.Name() == name {
+				fso := c.e.d.sortOf(f.Type())
+				fn := "field." + typeShortName(n) + "." + f.Name()
+				c.e.d.declFun(fn, "V", fso.SMT())
+				return Term{S: sApp(fn, base.S), Sort: fso, T: f.Type()}
+			}
+		}
+	}
 	if n == nil || !isPtr {
 		sc.fail("field %s of non-struct term %s (type %v)", name, base.S, base.T)
 	}
@@ -418,6 +430,9 @@ func (sc *SpecCtx) fieldOf(base Term, name string) Term {
 	for i := 0; i < st.NumFields(); i++ {
 		f := st.Field(i)
 		if f.Name() == name {
+			if c.e.isInlineObj(n, f) {
+				return c.inlineRef(sc.st, n, f, base)
+			}
 			arr := c.fieldArr(sc.st, n, f)
 			return Term{S: sSel(arr.S, base.S), Sort: arr.Sort.Elem, T: f.Type()}
 		}
@@ -567,6 +582,11 @@ func (sc *SpecCtx) evalCall(x *SCall) Term {
 		v := sc.eval(x.Args[0])
 		switch {
 		case v.Sort.Kind == KSlice:
+			if sc.st != nil && !strings.Contains(v.S, "$") {
+				// a slice value never has a negative length or offset (type fact; ground terms only - bound
+				// variables of a quantifier are named x$n)
+				sc.st.assume(fmt.Sprintf("(and (<= 0 (%s.len %s)) (<= 0 (%s.off %s)))", v.Sort.Name, v.S, v.Sort.Name, v.S))
+			}
 			return Term{S: fmt.Sprintf("(%s.len %s)", v.Sort.Name, v.S), Sort: sInt, T: types.Typ[types.Int]}
 		case v.T != nil:
 			if m, ok := v.T.Underlying().(*types.Map); ok {
@@ -726,6 +746,16 @@ func (sc *SpecCtx) evalCall(x *SCall) Term {
 		}
 		arr := c.heapGet(sc.st, "P:"+typeShortName(pt.Elem()), arraySort(sV, d.sortOf(pt.Elem())))
 		return Term{S: sSel(arr.S, v.S), Sort: arr.Sort.Elem, T: pt.Elem()}
+	case "cast":
+		// cast(x, T): the interface value x seen as the V-sorted (pointer or opaque struct) type T it is asserted to hold
+		argn(2)
+		v := sc.eval(x.Args[0])
+		t := c.e.resolveGoType(specTypeString(x.Args[1]), sc.pkg, sc.pos)
+		if v.Sort.Kind != KV || d.sortOf(t).Kind != KV {
+			sc.fail("cast: only between reference-sorted types")
+		}
+		v.T = t
+		return v
 	case "zero":
 		argn(1)
 		gt := c.e.parseGhostType(specTypeString(x.Args[0]), sc.pkg, sc.pos)
